@@ -50,4 +50,7 @@ pub enum DataVerifierError {
         larger_cids: Vec<Rc<CidRef>>,
         smaller_cids: Vec<Rc<CidRef>>,
     },
+
+    #[error("trace refers to {store} CID {cid:?} that is absent from the CID store")]
+    CidNotFound { cid: Rc<CidRef>, store: &'static str },
 }
